@@ -68,6 +68,7 @@ type vSim struct {
 	maxTrans int
 	plain    bool // no adversarial replies, no unsolicited records, no transient failures
 	allowBad bool // allow foreign / wrong-type / short replies
+	mid      bool // transient failures and unsolicited records also between the ACK and the data, and between data messages
 	recvs    int
 	// sends: the failAt-th Send (0-based; -1 none) fails before anything reaches the kernel
 	sendCalls   int
@@ -80,7 +81,7 @@ type vSim struct {
 }
 
 func newSim() *vSim {
-	s := &vSim{buf: make([]byte, 16+64), maxUnsol: vParam("unsol", 1), maxTrans: vParam("trans", 1), allowBad: vParam("bad", 1) != 0, failSendAt: -1, recvErrAt: -1}
+	s := &vSim{buf: make([]byte, 16+64), maxUnsol: vParam("unsol", 1), maxTrans: vParam("trans", 1), allowBad: vParam("bad", 1) != 0, failSendAt: -1, recvErrAt: -1, mid: vParam("mid", 0) != 0}
 	s.nextSeq = vU32("seq0")
 	vAssume(s.nextSeq != 0)
 	return s
@@ -156,17 +157,31 @@ func (s *vSim) planAck(rq *vRequest, idx int, e uint32) {
 	if e != 0 {
 		return
 	}
+	interlude := func() {
+		if !s.mid {
+			return
+		}
+		switch vChoose("mid", 3) {
+		case 1:
+			s.queue = append(s.queue, vEvent{kind: vEvTransient, eintr: vBool("mideintr"), reqIdx: idx})
+		case 2:
+			s.queue = append(s.queue, vEvent{kind: vEvUnsolicited, seq: 0, typ: vU16("midtyp"), payload: vBytes("midpay", 4), reqIdx: idx})
+		}
+	}
 	switch rq.typ {
 	case AuditGet:
 		n := 32 + 4*vChoose("statuslen", 4) // 32, 36, 40, 44 bytes
 		rq.status = vBytes("status", n)
+		interlude()
 		s.queue = append(s.queue, vEvent{kind: vEvData, seq: rq.seq, typ: AuditGet, payload: rq.status, reqIdx: idx})
 	case 1013: // AUDIT_LIST_RULES
 		for i, n := 0, vChoose("nrules", 3); i < n; i++ {
 			p := vBytes("rule", 3)
 			rq.rules = append(rq.rules, p)
+			interlude()
 			s.queue = append(s.queue, vEvent{kind: vEvData, seq: rq.seq, typ: 1013, payload: p, reqIdx: idx})
 		}
+		interlude()
 		s.queue = append(s.queue, vEvent{kind: vEvDone, seq: rq.seq, typ: syscall.NLMSG_DONE, reqIdx: idx})
 	}
 }
